@@ -3,6 +3,7 @@ package props
 import (
 	"bytes"
 	"fmt"
+	"reflect"
 	"regexp"
 	"sort"
 	"strconv"
@@ -25,6 +26,9 @@ type c16Case struct {
 	// Meta > 0: the list carries metadata that has nothing to do with the rendering of instants (script timer and
 	// resolution, timestamp map, frame rate / language / titles longer than their field)
 	Meta int `json:"meta,omitempty"`
+	// Text > 0: every third cue shows nothing (1: no line at all, 2: one line with one empty run, 3: one blank): its
+	// boundaries are rendered and read back like any other cue's
+	Text int `json:"text,omitempty"`
 }
 
 // ceilNs is the instant a reader assigns to u units of 1/perSecond s (rounded up to the next nanosecond).
@@ -68,6 +72,9 @@ func checkC16(c c16Case) string {
 	s := astisub.NewSubtitles()
 	for i := 0; i < n; i++ {
 		s.Items = append(s.Items, &astisub.Item{StartAt: time.Duration(c.Instants[2*i]), EndAt: time.Duration(c.Instants[2*i+1]), Lines: []astisub.Line{{Items: []astisub.LineItem{{Text: "x"}}}}})
+		if c.Text > 0 && i%3 == 1 {
+			s.Items[i].Lines = [][]astisub.Line{nil, {{Items: []astisub.LineItem{{Text: ""}}}}, {{Items: []astisub.LineItem{{Text: " "}}}}}[c.Text-1]
+		}
 	}
 	restore := astisub.Now
 	astisub.Now = func() time.Time { return time.Date(2021, 3, 4, 0, 0, 0, 0, time.UTC) }
@@ -249,6 +256,12 @@ func checkC16(c c16Case) string {
 				return fmt.Sprintf("%s: second write renders cue %d as %v, the first as %v (instants %d, %d ns)", c.Format, i, b, a, c.Instants[2*i], c.Instants[2*i+1])
 			}
 		}
+	} else if c.Text > 0 {
+		// a cue that shows nothing may come back with another line structure (no line / one empty line): the timing
+		// lines of the second write are those of the first
+		if a, b := re.FindAll(out, -1), re.FindAll(o2, -1); !reflect.DeepEqual(a, b) {
+			return fmt.Sprintf("%s: the timing lines of the second write differ from those of the first (%d against %d)", c.Format, len(b), len(a))
+		}
 	} else if !bytes.Equal(out, o2) {
 		d := 0
 		for d < len(out) && d < len(o2) && out[d] == o2[d] {
@@ -375,6 +388,15 @@ func TestC16(t *testing.T) {
 				if len(short) > 4000 {
 					short = short[:4000]
 				}
+				for text := 1; text <= 3; text++ {
+					tc := c16Case{Format: format, Instants: short[:len(short)/2*2], Text: text}
+					if len(tc.Instants) > 600 {
+						tc.Instants = tc.Instants[:600]
+					}
+					ev.CaseH(true, mix(strHash(format), uint64(text), 992), "format-"+format, "cues-that-show-nothing")
+					ev.AddEvals(len(tc.Instants) - 1)
+					verdict(t, "C16", "c16", tc, checkC16)
+				}
 				for meta := 1; meta <= 3; meta++ {
 					mc := c16Case{Format: format, Instants: short, Meta: meta}
 					ev.CaseH(true, mix(strHash(format), uint64(meta), 991), "format-"+format, "unrelated-metadata")
@@ -483,6 +505,10 @@ func TestC16(t *testing.T) {
 		if rapid.IntRange(0, 3).Draw(rt, "meta") == 0 {
 			c.Meta = rapid.IntRange(1, 3).Draw(rt, "metak")
 			ev.Label("unrelated-metadata")
+		}
+		if rapid.IntRange(0, 3).Draw(rt, "textless") == 0 {
+			c.Text = rapid.IntRange(1, 3).Draw(rt, "textk")
+			ev.Label("cues-that-show-nothing")
 		}
 		ev.Case(true, fmt.Sprintf("%v", c), "random", "format-"+format)
 		if n <= 2 {
